@@ -162,7 +162,61 @@ def run_real(desc_path):
 
 
 # ---- parent side ----------------------------------------------------------------------------
+def run_real_only(prop, names=None, parallel=4):
+    """Runs the real spawned anchors (subprocesses only: safe to call from a side thread
+    while the simulation batch runs). Returns [(name, desc, real_result)]."""
+    import concurrent.futures as cf
+
+    todo = [(n, o) for n, o in ANCHORS if (names is None or n in names)]
+    if prop == "C08":
+        todo = [(n, o) for n, o in todo if not o.get("plan")]
+    else:
+        todo = [(n, o) for n, o in todo if o.get("plan")]
+    d = tempfile.mkdtemp(prefix="dsim-anchor-")
+
+    def one(name, over):
+        desc = make_desc(over)
+        path = os.path.join(d, name + ".json")
+        with open(path, "w") as f:
+            json.dump({"desc": desc, "prop": prop, "limit": 300}, f)
+        env = dict(os.environ, DSIM_REAL="1", PYTHONPATH=VERIF_DIR)
+        p = subprocess.run([sys.executable, "-W", "ignore", os.path.join(VERIF_DIR, "dsim_main.py"), "--anchor", path],
+                           capture_output=True, text=True, env=env, timeout=600)
+        real = None
+        for line in p.stdout.splitlines():
+            if line.startswith("ANCHOR-RESULT "):
+                real = json.loads(line[len("ANCHOR-RESULT "):])
+        if real is None:
+            real = {"outcome": "anchor-failed", "stderr": p.stderr[-400:]}
+        return name, desc, real
+
+    with cf.ThreadPoolExecutor(parallel) as ex:
+        futs = [ex.submit(one, n, o) for n, o in todo]
+        reals = [f.result() for f in futs]
+    import shutil
+
+    shutil.rmtree(d, ignore_errors=True)
+    return reals
+
+
+def compare_with_sim(prop, reals):
+    """Same inputs through the simulator (main thread only): outcome classes must agree."""
+    from .pprops import execute
+
+    results = []
+    for name, desc, real in reals:
+        v, summ = execute(prop, desc, __import__("random").Random(7))
+        sim_out = "hang" if summ["hang"] else ("raised:" + summ["exc"] if summ["exc"] else "returned")
+        agree = (real["outcome"].split(":")[0] == sim_out.split(":")[0]) and (real.get("oracle_violation") is None) == (v is None)
+        results.append({"name": name, "real": real, "sim": {"outcome": sim_out, "oracle_violation": v.inv if v else None}, "agree": agree})
+    return results
+
+
 def run_anchors(prop, names=None, parallel=4):
+    return compare_with_sim(prop, run_real_only(prop, names, parallel))
+
+
+def _unused_run_anchors(prop, names=None, parallel=4):
     """Returns a list of {name, real, sim, agree}. Called from the thorough tier."""
     from .pprops import execute
     import concurrent.futures as cf
